@@ -264,6 +264,53 @@ let run_build t : string * string =
     | Err ((k, _), fnd) -> Printf.sprintf "err:%s;f=%s" (show_kind_err k) (show_kinds fnd) in
   (m, "-")
 
+
+(* ---------- unm: sequential reading ---------- *)
+let show_ures (off : int) (u : uresult) : string =
+  match u with
+  | URec (r, None, fnd, _) -> Printf.sprintf "off=%d:rec;%s" off (show_rec r fnd)
+  | URec (_, Some (k, _), fnd, _) -> Printf.sprintf "off=%d:recerr:%s;f=%s" off (show_kind_err k) (show_kinds fnd)
+  | UNone ((k, _), fnd) -> Printf.sprintf "off=%d:none:%s;f=%s" off (show_kind_err k) (show_kinds fnd)
+let m_read_plain o s =
+  read_all_plain field_table required_fields uni_lower uni_upper time_ok ip_ok uri_ok wid_ok mime_dec hash_oracle b32dec b64dec
+    (http_ok "httpreq") (http_ok "httpresp") (nat_of_int 40) o s O
+let m_read_gz o items =
+  read_all_gz field_table required_fields uni_lower uni_upper time_ok ip_ok uri_ok wid_ok mime_dec hash_oracle b32dec b64dec
+    (http_ok "httpreq") (http_ok "httpresp") (nat_of_int 40) o items O
+let run_unm t : string * string =
+  let (o, _vid, _thr) = read_opts t in
+  let res =
+    if next t = "p" then begin
+      let tail = if next_int t = 1 then TErr else TEOF in
+      let _chunk = next_int t in
+      let data = next_hex t in
+      let l = m_read_plain o { sdata = data; stail = tail } in
+      (* read errors inside the content region are outside the modelled domain *)
+      let unmodelled = false in
+      if unmodelled then None else Some (l, tail = TErr)
+    end else begin
+      let n = next_int t in
+      let items = List.init n (fun _ ->
+        match next t with
+        | "j" -> GJunk (next_hex t)
+        | "m" -> let p = next_hex t in let cut = next_int t in let pre = next_hex t in let cs = next_int t in
+                 if cut < 0 then GMember (p, true, nat_of_int cs) else GMember (pre, false, nat_of_int cs)
+        | "x" -> let cs = next_int t in let _ = next_int t in let _ = next_hex t in GBadMember (nat_of_int cs)
+        | s -> failwith ("unknown item " ^ s)) in
+      let l = m_read_gz o items in
+      let abnormal = List.exists (function GMember (_, false, _) | GBadMember _ -> true | _ -> false) items in
+      Some (l, abnormal)
+    end in
+  match res with
+  | None -> ("-", "-")
+  | Some (l, abnormal) ->
+    (* a stream that ends in a read error (cut gzip member, failing reader): only the coarse
+       outcome of the record that hits the error is modelled *)
+    let show (off, u) = match u with
+      | URec (_, None, _, _) -> show_ures (int_of_nat off) u
+      | _ -> if abnormal then Printf.sprintf "off=%d:cut" (int_of_nat off) else show_ures (int_of_nat off) u in
+    (String.concat "|" (List.map show l), "-")
+
 (* ---------- main ---------- *)
 let run_line (line : string) : string * string =
   let t = { rest = List.filter (fun s -> s <> "") (String.split_on_char ' ' line) } in
@@ -275,6 +322,7 @@ let run_line (line : string) : string * string =
   | "hapi" -> run_hapi t
   | "block" -> run_block t
   | "build" -> run_build t
+  | "unm" -> run_unm t
   | d -> failwith ("unknown domain " ^ d)
 
 let () =
